@@ -12,11 +12,16 @@ fn fnv(data: &[u8]) -> u64 {
 }
 
 pub fn files_digest(dir: &str) -> String {
+    files_digest_sel(dir, false)
+}
+
+pub fn files_digest_sel(dir: &str, meta: bool) -> String {
     let mut names: Vec<String> = Vec::new();
     if let Ok(rd) = std::fs::read_dir(dir) {
         for e in rd {
             let n = e.unwrap().file_name().into_string().unwrap();
-            if n.contains("-nun.") || n == "is-oplog.valid" || n == "oplog-nun.op" {
+            let global = n == "keys-nun.keys" || n == "is-oplog.valid" || n.starts_with("oplog-nun.op");
+            if (n.contains("-nun.") && !global) || (meta && global) {
                 names.push(n);
             }
         }
